@@ -74,9 +74,16 @@ Theorem C06_same_modulo_sound :
 Proof. exact same_modulo_sound. Qed.
 Print Assumptions C06_same_modulo_sound.
 
-(* the synonym table used by the check is verified against the executable interpretation of C16 *)
-Theorem C06_synonyms_verified : forall f args, std_fenv [] (canon synonyms f) args = std_fenv [] f args.
-Proof. exact std_fenv_respects_synonyms. Qed.
+(* which part of the synonym table is VERIFIED: for jaro_sim~jaro_similarity, jaro_winkler~jaro_winkler_similarity,
+   size~array_length, array_intersect~list_intersect the executable meaning (`builtin`, Model/Levels.v) of the synonym IS the
+   meaning of the canonical name, and that meaning is defined and non-NULL on some arguments (so this is not the default
+   "unknown function -> NULL" on both sides).  unix_timestamp~epoch has no executable meaning in Coq: it is in
+   `synonyms_x_only` and tied by the correspondence run only. *)
+Theorem C06_synonyms_verified :
+  (forall f args, builtin (canon synonyms_builtin f) args = builtin f args) /\
+  (forall a b, In (a, b) synonyms_builtin -> exists args v, builtin a args = Some v /\ builtin b args = Some v /\ v <> VNull) /\
+  synonyms = synonyms_builtin ++ synonyms_x_only.
+Proof. split; [exact builtin_respects_synonyms|split; [exact synonyms_builtin_defined|reflexivity]]. Qed.
 Print Assumptions C06_synonyms_verified.
 
 (* ---- non-vacuity ---- *)
